@@ -72,6 +72,7 @@ type c04Obs struct {
 	Foreign int         `json:"foreign"`
 	KeyEcho bool        `json:"keyEcho"` // RealIP()/Header.Get returned the generated key every time
 	Lists   [][]string  `json:"lists,omitempty"`
+	Sel     [][]string  `json:"sel,omitempty"` // swap: per step (initial list, then after every report) the distinct "url|weight" a pool with the case's policy selected
 	Triples []c04Triple `json:"triples,omitempty"`
 	Total   int         `json:"total"`
 	Valid   bool        `json:"valid"`
@@ -156,6 +157,65 @@ func c04GenInsts(r *verifh.Rand, gen int) []c04Inst {
 	return is
 }
 
+// c04MutateInsts derives the next discovery report from the previous one: the registry re-publishes the
+// full instance list, often with the same addresses — only weights changed (an instance drained to 0),
+// one instance added / removed, a tag changed, the instance ids renamed (another map order), or nothing.
+func c04MutateInsts(r *verifh.Rand, prev []c04Inst, gen int) []c04Inst {
+	out := make([]c04Inst, len(prev))
+	for i, p := range prev {
+		out[i] = p
+		out[i].Tags = append([]string{}, p.Tags...)
+	}
+	if len(out) == 0 {
+		return c04GenInsts(r, gen)
+	}
+	switch r.Intn(8) {
+	case 0: // identical re-report
+	case 1: // every weight re-drawn
+		for i := range out {
+			out[i].Weight = r.PickInt(0, 0, 1, 2, 7, 50)
+		}
+	case 2, 3: // one instance drained to weight 0 (or, if it was 0, brought back)
+		k := r.Intn(len(out))
+		if out[k].Weight != 0 {
+			out[k].Weight = 0
+		} else {
+			out[k].Weight = r.PickInt(1, 3, 9)
+		}
+	case 4: // one instance leaves
+		k := r.Intn(len(out))
+		out = append(out[:k], out[k+1:]...)
+	case 5: // one instance joins
+		out = append(out, c04Inst{Name: fmt.Sprintf("i%d-new", gen), Addr: fmt.Sprintf("10.9.%d.1", gen), Port: 8100 + gen,
+			Tags: append([]string{}, out[0].Tags...), Weight: r.PickInt(0, 1, 4)})
+	case 6: // a tag changes on one instance
+		k := r.Intn(len(out))
+		t := r.Pick("v1", "v2", "green", "blue")
+		found := -1
+		for j, x := range out[k].Tags {
+			if x == t {
+				found = j
+			}
+		}
+		if found >= 0 {
+			out[k].Tags = append(out[k].Tags[:found], out[k].Tags[found+1:]...)
+		} else {
+			out[k].Tags = append(out[k].Tags, t)
+		}
+	default: // same instances under new ids (the map iterates in another order anyway), weights rotated
+		w0 := out[0].Weight
+		for i := range out {
+			out[i].Name = fmt.Sprintf("r%d-%d", gen, len(out)-i)
+			if i+1 < len(out) {
+				out[i].Weight = out[i+1].Weight
+			} else {
+				out[i].Weight = w0
+			}
+		}
+	}
+	return out
+}
+
 func c04Gen(r *verifh.Rand, i int) interface{} {
 	in := c04Input{}
 	in.Policy = c04Policies[r.Intn(len(c04Policies))]
@@ -195,8 +255,31 @@ func c04Gen(r *verifh.Rand, i int) interface{} {
 			in.Policy = r.Pick("roundRobin", "", "roundRobin", "ipHash")
 		}
 		ng := r.Range(1, 5)
+		history := r.Bool(3, 5) // related reports: the same service re-published with small changes
+		if history {
+			ng = r.Range(2, 7)
+			if r.Bool(1, 2) {
+				in.Policy = "weightedRandom"
+			}
+			if len(in.ServerTags) == 0 || r.Bool(1, 2) {
+				in.ServerTags = []string{r.Pick("v1", "v2", "green")}
+			}
+		}
 		for g := 0; g < ng; g++ {
-			in.Gens = append(in.Gens, c04GenInsts(r, g))
+			if history && g > 0 && r.Bool(5, 6) {
+				in.Gens = append(in.Gens, c04MutateInsts(r, in.Gens[g-1], g))
+				continue
+			}
+			insts := c04GenInsts(r, g)
+			if history {
+				// most instances carry one of the pool's tags, so that weights matter
+				for k := range insts {
+					if r.Bool(3, 4) {
+						insts[k].Tags = append(insts[k].Tags, in.ServerTags[0])
+					}
+				}
+			}
+			in.Gens = append(in.Gens, insts)
 		}
 	default:
 		in.Mode = "handle"
@@ -424,12 +507,38 @@ func c04Swap(in *c04Input) interface{} {
 		sort.Strings(out)
 		return out
 	}
+	// … and a second pool with the case's own policy makes selections between the reports
+	spC := NewServerPool(nil, c04PoolSpec(in), "verif-c")
+	nsel := 0
+	selections := func() []string {
+		set := map[string]struct{}{}
+		for i := 0; i < 48; i++ {
+			req, _ := c04Request(c04Key(in, nsel), in.HeaderKey, in.Path)
+			nsel++
+			s := spC.LoadBalancer().ChooseServer(req)
+			if s == nil {
+				set["<nil>"] = struct{}{}
+			} else {
+				set[fmt.Sprintf("%s|%d", s.URL, s.Weight)] = struct{}{}
+			}
+		}
+		out := make([]string, 0, len(set))
+		for k := range set {
+			out = append(out, k)
+		}
+		sort.Strings(out)
+		return out
+	}
 	obs.Lists = append(obs.Lists, enum())
+	obs.Sel = append(obs.Sel, selections())
 	for _, g := range in.Gens {
 		spA.useService(c04Instances(g))
 		obs.Lists = append(obs.Lists, enum())
+		spC.useService(c04Instances(g))
+		obs.Sel = append(obs.Sel, selections())
 	}
 	spA.close()
+	spC.close()
 
 	// pass B
 	sp := NewServerPool(nil, c04PoolSpec(in), "verif-b")
